@@ -219,7 +219,8 @@ func (e *c14Env) header(s c14Shape) tmconsensus.Header {
 		Hash: e.pres(s.HHash, 32), PrevBlockHash: e.pres(s.HPrev, 32), Height: e.num64(s.HHeight),
 		PrevCommitProof:  tmconsensus.CommitProof{Round: e.num32(s.PcpRound), PubKeyHash: e.pkhString(s.PcpPKH), Proofs: e.proofMap(s.PcpMap)},
 		ValidatorSet:     e.valSet(s.Nv, s.VsPKH, s.VsVPH, 0),
-		NextValidatorSet: e.valSet(s.Nnv, s.NvsPKH, s.NvsVPH, 2),
+		// the next set shares none, some or all of its keys (at the same index) with the current set; powers are independent
+		NextValidatorSet: e.valSet(s.Nnv, s.NvsPKH, s.NvsVPH, e.rng.Intn(3)),
 		DataID:           e.pres(s.HData, 40), PrevAppStateHash: e.pres(s.HApp, 40),
 		Annotations: tmconsensus.Annotations{User: e.pres(s.HUser, 12), Driver: e.pres(s.HDriver, 12)},
 	}
